@@ -124,7 +124,11 @@ public:
         suspend_point<void> unblock_future() {
 
             if (done()) return _awaiting(drop);
-            else if (_exp) return _awaiting(_exp);
+            else if (_exp) {
+                //the exception is the last item: once it is handed over, the generator is finished
+                _done = true;
+                return _awaiting(_exp);
+            }
             else return _awaiting(*_ret);
         }
 
@@ -260,6 +264,11 @@ public:
 
         const std::exception_ptr &exception() const {
             return _exp;
+        }
+
+        //called when the stored exception is handed over to the consumer - it is the last item, the generator is finished
+        void exception_reported() {
+            _done = true;
         }
 
         Ret *value() {
@@ -407,7 +416,10 @@ public:
      */
     Ret &value() {
         auto exp = _promise->exception();
-        if (exp) [[unlikely]] std::rethrow_exception(exp);
+        if (exp) [[unlikely]] {
+            _promise->exception_reported();
+            std::rethrow_exception(exp);
+        }
         auto ret = _promise->value();
         if (ret) [[likely]] return *ret;
         throw value_not_ready_exception();
